@@ -195,6 +195,12 @@ func (in *Interp) mathUF1(name string, x *term.Term) *term.Term {
 	eq := term.Feq
 	le := term.Fle
 	if in.job.Mode == "real" {
+		if name == "Exp" {
+			return in.expOf(x)
+		}
+		if name == "Log" && x.Op == "uf" && x.Name == "E" && len(x.Args) == 1 {
+			return x.Args[0] // log(exp(t)) = t
+		}
 		switch name {
 		case "Exp":
 			in.addFact(u, term.Flt(c(0), u))
@@ -203,11 +209,25 @@ func (in *Interp) mathUF1(name string, x *term.Term) *term.Term {
 		case "Erfc":
 			in.addFact(u, term.And(term.Flt(c(0), u), term.Flt(u, c(2))))
 		case "Cosh":
+			sh := term.UF(term.F64, "math.Sinh", x)
+			in.addFact(u, eq(term.Fsub(term.Fmul(u, u), term.Fmul(sh, sh)), c(1)))
 			in.addFact(u, le(c(1), u))
-		case "Tanh":
-			in.addFact(u, term.And(term.Flt(c(-1), u), term.Flt(u, c(1))))
-		case "Sin", "Cos":
-			in.addFact(u, term.And(le(c(-1), u), le(u, c(1))))
+		case "Sin", "Cos", "Tan":
+			sn := term.UF(term.F64, "math.Sin", x)
+			cs := term.UF(term.F64, "math.Cos", x)
+			in.addFact(u, eq(term.Fadd(term.Fmul(sn, sn), term.Fmul(cs, cs)), c(1)))
+			if name == "Tan" {
+				in.addFact(u, eq(term.Fmul(u, cs), sn))
+				in.addFact(u, term.Not(eq(cs, c(0))))
+			}
+		case "Sinh", "Tanh":
+			sh := term.UF(term.F64, "math.Sinh", x)
+			ch := term.UF(term.F64, "math.Cosh", x)
+			in.addFact(u, eq(term.Fsub(term.Fmul(ch, ch), term.Fmul(sh, sh)), c(1)))
+			in.addFact(u, le(c(1), ch))
+			if name == "Tanh" {
+				in.addFact(u, eq(term.Fmul(u, ch), sh))
+			}
 		case "Floor":
 			in.addFact(u, term.And(le(u, x), term.Flt(x, term.Fadd(u, c(1)))))
 		case "Ceil":
@@ -476,4 +496,74 @@ func (in *Interp) interceptByPackage(fn *ssa.Function, name string, args []Value
 
 func isHarnessFn(name string) bool {
 	return strings.HasPrefix(name, rootPkg+".Verif")
+}
+
+// expOf returns exp(t) in the real interpretation as a rational function of
+// atoms E(x) (DESIGN 3.3: exp-homomorphism): exp(a+b) = exp(a)exp(b),
+// exp(a-b) = exp(a)/exp(b), exp(-a) = 1/exp(a), exp(log u) = u,
+// exp(log1p u) = 1+u, exp(k*a) = exp(a)^k for small integer constants k.
+func (in *Interp) expOf(t *term.Term) *term.Term {
+	one := term.FloatC(term.F64, 1)
+	if t.IsConst() {
+		if t.F == 0 {
+			return one
+		}
+		return in.expAtom(t)
+	}
+	switch t.Op {
+	case "fadd":
+		return term.Fmul(in.expOf(t.Args[0]), in.expOf(t.Args[1]))
+	case "fsub":
+		return term.Fdiv(in.expOf(t.Args[0]), in.expOf(t.Args[1]))
+	case "fneg":
+		return term.Fdiv(one, in.expOf(t.Args[0]))
+	case "fmul":
+		for i := 0; i < 2; i++ {
+			k, x := t.Args[i], t.Args[1-i]
+			if k.IsConst() && k.F == math.Floor(k.F) && math.Abs(k.F) <= 4 && k.F != 0 {
+				e := in.expOf(x)
+				r := one
+				for j := 0; j < int(math.Abs(k.F)); j++ {
+					r = term.Fmul(r, e)
+				}
+				if k.F < 0 {
+					r = term.Fdiv(one, r)
+				}
+				return r
+			}
+		}
+	case "uf":
+		if len(t.Args) == 1 {
+			switch t.Name {
+			case "math.Log":
+				return t.Args[0]
+			case "math.Log1p":
+				return term.Fadd(one, t.Args[0])
+			}
+		}
+	}
+	return in.expAtom(t)
+}
+
+func (in *Interp) expAtom(t *term.Term) *term.Term {
+	in.stubsSeen["math.Exp"]++
+	u := term.UF(term.F64, "E", t)
+	if _, done := in.facts[u.ID]; !done {
+		in.addFact(u, term.Flt(term.FloatC(term.F64, 0), u))
+		in.facts[u.ID] = append(in.facts[u.ID], term.True)
+	}
+	return u
+}
+
+// hasLogTop: t is a sum/difference whose summands include a log-like head
+func hasLogTop(t *term.Term) bool {
+	switch t.Op {
+	case "fadd", "fsub":
+		return hasLogTop(t.Args[0]) || hasLogTop(t.Args[1])
+	case "fneg":
+		return hasLogTop(t.Args[0])
+	case "uf":
+		return t.Name == "math.Log" || t.Name == "math.Log1p"
+	}
+	return false
 }
